@@ -8,21 +8,39 @@ PROPS = ['C%02d' % i for i in range(1, 19)]
 def sh(cmd):
     return subprocess.run(cmd, shell=True, text=True, capture_output=True)
 def main():
+    args = sys.argv[1:]
+    REPO, RUN, sb = '/repo', VERIF, None
+    if args and args[0] == '--sandbox':
+        sys.path.insert(0, os.path.join(VERIF, 'tools'))
+        import sandbox
+        sb = args[1]
+        RUN, REPO = sandbox.make(sb)
+        args = args[2:]
+    os.environ['VERIF_REPO'] = REPO
+    try:
+        return run(args, REPO, RUN)
+    finally:
+        if sb:
+            import sandbox
+            sandbox.destroy(sb)
+
+
+def run(args, REPO, RUN):
     hd = os.path.join(VERIF, 'seeded', 'harmless')
-    names = sys.argv[1:] or sorted(os.path.basename(f)[:-5] for f in glob.glob(hd + '/*.diff'))
+    names = args or sorted(os.path.basename(f)[:-5] for f in glob.glob(hd + '/*.diff'))
     rp = os.path.join(hd, 'results.json')
     results = json.load(open(rp)) if os.path.exists(rp) else {}
     for nm in names:
         patch = os.path.join(hd, nm + '.diff')
-        if sh('git -C /repo status --porcelain --untracked-files=no').stdout.strip():
+        if sh('git -C %s status --porcelain --untracked-files=no' % REPO).stdout.strip():
             print('REFUSING: /repo dirty'); return 2
-        if sh('git -C /repo apply %s' % patch).returncode != 0:
+        if sh('git -C %s apply %s' % (REPO, patch)).returncode != 0:
             print(nm, 'PATCH DOES NOT APPLY'); results[nm] = {'applies': False}; continue
         res = {}
         try:
             for p in PROPS:
                 t = time.time()
-                r = sh('cd %s && ./check %s quick' % (VERIF, p))
+                r = sh('cd %s && ./check %s quick' % (RUN, p))
                 v = [l for l in r.stdout.splitlines() if l.startswith('VIOLATION')]
                 info = dict(exit=r.returncode, seconds=round(time.time() - t))
                 if v:
@@ -38,9 +56,9 @@ def main():
                 res[p] = info
                 print(nm, p, 'exit=%d' % r.returncode, (v[0][:150] if v else ''), flush=True)
         finally:
-            sh('git -C /repo apply -R %s' % patch)
-            if sh('git -C /repo status --porcelain --untracked-files=no').stdout.strip():
-                sh('git -C /repo checkout -- .')
+            sh('git -C %s apply -R %s' % (REPO, patch))
+            if sh('git -C %s status --porcelain --untracked-files=no' % REPO).stdout.strip():
+                sh('git -C %s checkout -- .' % REPO)
         results[nm] = dict(applies=True, description=open(os.path.join(hd, nm + '.md')).read().strip()[:400] if os.path.exists(os.path.join(hd, nm + '.md')) else '',
                            checks=res, false_alarms=[p for p in res if res[p]['exit'] != 0])
         json.dump(results, open(rp, 'w'), indent=1)
